@@ -19,9 +19,10 @@ ASSUMPTIONS = ['floats limited to values whose single-precision rounding is '
 
 def shards(tier, seed):
     n = 16
-    return [{'name': 's%d' % i, 'i': i, 'n': n,
+    out = [{'name': 's%d' % i, 'i': i, 'n': n,
              'n_random': 1200 if tier == 'quick' else 30000,
              'grid': tier != 'quick'} for i in range(n)]
+    return common.with_configs(out, common.ALL_CONFIGS, take=1)
 
 
 def decimal_grid(full):
@@ -92,7 +93,14 @@ def run_case(case, rec):
     from pamqp import decode, encode
     rec.ev()
     common.set_legacy(False)
+    if case.get('prefix'):
+        common.replay_history(case['prefix'])
+        case = {k: x for k, x in case.items() if k != 'prefix'}
     v = _wrap(case)
+    if isinstance(v, dict) and v:
+        common.fail_then_retry_table(v, common.RND)
+        rec.count('failed_encodes_interleaved')
+    case = common.H(case)
     if isinstance(v, dict) and case['wrap'] != 'value':
         efn, dfn, name = encode.field_table, decode.field_table, 'field_table'
     elif isinstance(v, list) and case['wrap'] != 'value':
@@ -110,6 +118,15 @@ def run_case(case, rec):
                       'leaf %r)' % (name, e.describe(), leaf), case)
         return
     data = e.value
+    # corrupted relatives of these bytes are decoded (and refused) first
+    if len(data) > 6:
+        for _ in range(2):
+            k = common.RND.randrange(len(data))
+            bad = data[:k] if common.RND.random() < 0.5 else \
+                data[:k] + b'\xff' + data[k + 1:]
+            call(dfn, bad, _calls=40 * len(data) + 20000,
+                 _jumps=40 * len(data) + 20000)
+        rec.count('failed_decodes_interleaved', 2)
     d = call(dfn, data)
     rec.nt(canon.digest((case['wrap'], case['v'])))
     if not d.ok:
@@ -130,6 +147,18 @@ def run_case(case, rec):
                       'round trip through %s changed a value: %s'
                       % (name, fd[1][:300]), case, observed=got, expected=exp)
         return
+    if common.has_decimal(v):
+        for ctx in common.narrow_contexts():
+            e2 = common.encode_under_context(efn, v, ctx)
+            if not e2.ok or e2.value != data:
+                rec.violation('encoding-depends-on-decimal-context',
+                              'encode.%s gives %s under decimal context %r '
+                              'but %s under the default context'
+                              % (name, common.hexs(e2.value, 80) if e2.ok
+                                 else e2.describe(), ctx,
+                                 common.hexs(data, 80)), case)
+                return
+        rec.count('decimal_contexts_compared', len(common.narrow_contexts()))
     rec.count('roundtrips_ok')
     rec.count('via:' + name)
     _cover(v, rec, 0, case['wrap'])
